@@ -461,6 +461,19 @@ pub fn c14_fixed() -> Vec<C14Pair> {
         p(set("standard-error", &["SYSTEM:ERROR:COUN?", "A"], false, true), set("standard-error", &["SYSTEM:ERROR:COUNX?", "A"], false, true)),
         p(set("third-of-three", &["A", "B", "C", "D:E", "C"], false, false), set("third-of-three", &["A", "B", "C", "D:E", "C?"], false, false)),
         p(set("query-vs-query", &["A:B?", "[X]:A:B?", "A:[C]:B?"], false, false), set("query-vs-query", &["A:B?", "[X]:A:B", "A:[C]:D?"], false, false)),
+        // twins that are distinct only under the exact reading of a spelling (node boundaries,
+        // order, depth, suffixes): a lossy collision key would reject them
+        p(set("near-collision/node-boundary", &["A:BC", "A:BC"], false, false), set("near-collision/node-boundary", &["A:BC", "AB:C", "ABC", "A:B:C"], false, false)),
+        p(set("near-collision/node-boundary", &["SYSTem:TIMe:ZONE?", "SYST:TIM:ZONE?"], false, false), set("near-collision/node-boundary", &["SYSTem:TIMe:ZONE?", "SYSTem:TIMEZone?"], false, false)),
+        p(set("near-collision/node-boundary", &["DATa:LOG", "DAT:LOG"], false, false), set("near-collision/node-boundary", &["DATa:LOG", "DATALog", "DATALOG:X"], false, false)),
+        p(set("near-collision/order", &["A:B", "A:B"], false, false), set("near-collision/order", &["A:B", "B:A", "A:A", "B:B"], false, false)),
+        p(set("near-collision/prefix", &["A:B?", "A:B?"], false, false), set("near-collision/prefix", &["A?", "A:B?", "A:B:C?", "A:B:C:D?"], false, false)),
+        p(set("near-collision/suffix", &["CH1:X", "CH1:X"], false, false), set("near-collision/suffix", &["CH1:X", "CH2:X", "CH:X", "CH_1:X", "CH11:X"], false, false)),
+        p(set("near-collision/suffix", &["CHANnel1", "CHAN1"], false, false), set("near-collision/suffix", &["CHANnel1", "CHANnel2", "CHANnel"], false, false)),
+        p(set("near-collision/star", &["*RST", "*RST"], false, false), set("near-collision/star", &["*RST", "RST", "*RST?", "RST?"], false, false)),
+        p(set("near-collision/optional", &["[A]:B", "B"], false, false), set("near-collision/optional", &["[A]:B", "[A]:C", "B:B", "A:[B]:D"], false, false)),
+        p(set("near-collision/std", &["SYSTem:VERSion?"], true, false), set("near-collision/std", &["SYSTem:VERSion", "SYSTem:VERS1?", "SYSTem:ERRor?", "SYST:ERR:NEXT?", "SYST:ERR:COUN?"], true, false)),
+        p(set("near-collision/std", &["SYST:ERR?"], false, true), set("near-collision/std", &["SYST:ERR", "SYST:ERR:NEXT", "SYST:ERR:COUN", "SYSTem:VERSion?", "SYST:ERR:[ALL]:X?"], false, true)),
     ]
 }
 
